@@ -54,15 +54,24 @@ class Rule:
     mutation generators used as positive controls / self-test."""
 
     def __init__(self, rid: str, fn: Callable[[Repo], List[Ob]], floor: int, doc: str,
-                 mutants: Optional[Callable[[Repo], List["Mutant"]]] = None):
+                 mutants: Optional[Callable[[Repo], List["Mutant"]]] = None, soft: bool = False):
         self.id = rid
         self.fn = fn
         self.floor = floor
         self.doc = doc
         self.mutants = mutants
+        # soft: a shape rule over the inside of an anchored function.  If it cannot recognise the
+        # mechanism at all it reports INCONCLUSIVE instead of failing the run.
+        self.soft = soft
 
     def run(self, repo: Repo) -> List[Ob]:
-        obs = self.fn(repo)
+        if self.soft:
+            try:
+                obs = self.fn(repo)
+            except AnalysisError as e:
+                obs = [inconclusive(self.id, f"{self.id}::unrecognised", "", 0, "", f"mechanism not recognised: {e}")]
+        else:
+            obs = self.fn(repo)
         for o in obs:
             if not o.rule:
                 o.rule = self.id
@@ -205,7 +214,7 @@ def run_rules(repo: Repo, rules: List[Rule], res: Optional[Result] = None, check
         if res is not None:
             res.rule_stats[r.id] = {"instances": len(obs), "nontrivial": n, "floor": r.floor,
                                     "violations": len([o for o in obs if not o.ok]), "doc": r.doc}
-        if check_floor and len(obs) < r.floor:
+        if check_floor and len(obs) < r.floor and not any(o.inconclusive for o in obs):
             raise AnalysisError(f"rule {r.id}: {len(obs)} instance(s) found, floor is {r.floor} "
                                 f"(anchor vanished or discovery broken)")
         all_obs += obs
